@@ -351,16 +351,13 @@ class NormalizeCurve(Command):
             prev_raw = value_pairs[i - 1][0]
             prev_normal = value_pairs[i - 1][1]
 
-            m = (normal - prev_normal) / (raw - prev_raw)
-            b = prev_normal - m * prev_raw
-
             where_idx = numpy.where(
                 numpy.logical_and(arr.data > prev_raw, arr.data <= raw)
             )
 
-            result[where_idx] = arr.data[where_idx]
-            result[where_idx] *= m
-            result[where_idx] += b
+            # Interpolate by position within the segment: a slope/intercept form overflows to NaN for very close raw values
+            position = (arr.data[where_idx] - prev_raw) / (raw - prev_raw)
+            result[where_idx] = prev_normal + position * (normal - prev_normal)
 
         # For raw values greater than the highest raw value, set them to the corresponding normal value
         result[arr > value_pairs[-1][0]] = value_pairs[-1][1]
@@ -451,15 +448,13 @@ class NormalizeCurveZScore(Command):
             prev_raw = value_pairs[i - 1][0]
             prev_normal = value_pairs[i - 1][1]
 
-            m = (normal - prev_normal) / (raw - prev_raw)
-            b = prev_normal - m * prev_raw
-
             where_idx = numpy.where(
                 numpy.logical_and(arr.data > prev_raw, arr.data <= raw)
             )
-            result[where_idx] = arr.data[where_idx]
-            result[where_idx] *= m
-            result[where_idx] += b
+
+            # Interpolate by position within the segment: a slope/intercept form overflows to NaN for very close raw values
+            position = (arr.data[where_idx] - prev_raw) / (raw - prev_raw)
+            result[where_idx] = prev_normal + position * (normal - prev_normal)
 
         # For raw values greater than the highest raw value, set them to the corresponding normal value
         result[arr > value_pairs[-1][0]] = value_pairs[-1][1]
